@@ -92,6 +92,11 @@ def evaluate(case):
     import spatialpandas as sp
     nt = False
     inds = case.get('inds')
+    if case.get('sindex'):
+        # a history: the array carries a cached spatial index (as after .sindex / cx / sjoin) when it is asked;
+        # the box test is a function of the elements and the box alone
+        lib(B + ['sindex'], lambda: arr.sindex)
+        labels.append('sindex-cached')
     for box in case['boxes']:
         exp = [og.elem_intersects_box(kind, e, box) for e in els]
         whole = np.asarray(lib(B + ['array'], arr.intersects_bounds, tuple(box)))
@@ -187,6 +192,7 @@ def _case(draw):
     inds = draw(st.one_of(st.none(), st.lists(st.integers(0, len(els) - 1), min_size=0, max_size=6)))
     reback = draw(st.sampled_from(model.REBACKINGS))
     return {'kind': kind, 'subtype': subtype, 'elements': els, 'reback': reback, 'boxes': boxes, 'inds': inds,
+            'sindex': draw(st.booleans()),
             'labels': labels + [f'scale2^{xf["m"].bit_length() - 1}' if xf['m'] > 1 else 'scale1', f'q{xf["q"]}']}
 
 
